@@ -12,7 +12,9 @@ from hypothesis import strategies as st
 
 from vlib import values
 
-TAGS = ["div", "span", "p", "ul", "li", "b", "a", "td", "em", "x-y", "é"]
+TAGS = ["div", "span", "p", "ul", "li", "b", "a", "td", "em", "x-y", "é",
+        # (names of HTML void elements are names like any other)
+        "img", "input"]
 ATTR_NAMES = ["class", "id", "title", "href", "data-x", "lang", "Style"]
 SCALAR_VARS = ["s0", "s1", "s2"]
 SEQ_VARS = ["q0", "q1"]
